@@ -281,6 +281,9 @@ Inductive case :=
   (* a run of operations on one real channel (real nsqd, periodic scan parked), from its
      creation with heap capacity capq: after every operation both heaps, both maps *)
 | ChanRun (max_msg capq : Z) (steps : list (cop * cobs))
+  (* end to end with the real ticker (scan interval 100 ms): something that must wait [delay]
+     was started no earlier than client time t_start and arrived at client time t_recv *)
+| Wall (delay t_start t_recv : Z)
   (* one real util.UniqRands(quantity, maxval) call (queueScanLoop's channel selection) *)
 | Uniq (quantity maxval : Z) (res : list Z).
 
@@ -392,6 +395,10 @@ Definition judge (c : case) : N :=
       let '(a, m) := run_chan max_msg (empty_chan (Z.to_nat capq))
                               (mkCobs 0 [] [] [] capq [] [] capq) steps in
       verdict a m
+  | Wall delay t_start t_recv =>
+      (* never early (exact); late by at most a scan interval plus a 10 s guard band *)
+      let ok := (delay <=? t_recv - t_start) && (t_recv - t_start <=? delay + 10000000000) in
+      verdict ok ok
   | Uniq quantity maxval res =>
       let ok := (Z.of_nat (length res) =? Z.min quantity maxval)
                 && forallb (fun x => (0 <=? x) && (x <? maxval)) res
